@@ -12,6 +12,8 @@ import (
 	"strings"
 	"sync"
 
+	"github.com/google/uuid"
+
 	vgigcs "github.com/Query-farm/vgi-rpc-go/vgirpc/gcs"
 	vgis3 "github.com/Query-farm/vgi-rpc-go/vgirpc/s3"
 )
@@ -24,8 +26,11 @@ import (
 //   s3 n=<N> workers=<W> prefix=<hex> enc=<none|zstd>
 //                                      N real S3Storage.Upload calls against a local fake S3 endpoint;
 //                                      the object keys are what the endpoint saw in the PUT requests
-//   gcs n=<N> workers=<W> prefix=<hex> enc=<none|zstd>
-//                                      N real GCSStorage.Upload calls against a local fake GCS endpoint
+//   gcs n=<N> workers=<W> prefix=<hex> enc=<none|zstd> [fault=entropy]
+//                                      N real GCSStorage.Upload calls against a local fake GCS endpoint;
+//                                      fault=entropy: while the uuid library's entropy source reports an
+//                                      error (uuid.SetRand with a failing reader, restored afterwards).
+//                                      Such an upload must fail (write nothing) or still use a fresh key.
 //
 // For gen/s3/gcs the model is handed the 16 bytes recovered from each observed key (the random
 // draw is an environment value) and must reproduce the key text; the oracle checks that no key
@@ -141,7 +146,18 @@ func c33Parallel(n, workers int, f func()) {
 }
 
 // c33Check: shape + uniqueness oracle, and a sample of model comparisons.
+// c33FailingReader is an entropy source that reports an error (what a getrandom/urandom failure looks like).
+type c33FailingReader struct{}
+
+func (c33FailingReader) Read(p []byte) (int, error) {
+	return 0, fmt.Errorf("entropy source unavailable")
+}
+
 func c33Check(c *Case, line, backend, prefix, ext string, keys []string, seen map[string]bool) {
+	c33CheckF(c, line, backend, prefix, ext, keys, seen, false)
+}
+
+func c33CheckF(c *Case, line, backend, prefix, ext string, keys []string, seen map[string]bool, fault bool) {
 	dups, bad := 0, 0
 	firstDup := ""
 	sample := 0
@@ -163,6 +179,17 @@ func c33Check(c *Case, line, backend, prefix, ext string, keys []string, seen ma
 			}
 			continue
 		}
+		if fault { // the model says: no randomness, no key
+			if sample < 6 {
+				sample++
+				z := "0"
+				if ext == ".arrow.zst" {
+					z = "1"
+				}
+				c.Out(fmt.Sprintf("gcs prefix=%s uuid=! zstd=%s", XS(prefix), z), k)
+			}
+			continue
+		}
 		if sample < 6 { // the model must reproduce the key from the bytes it encodes
 			sample++
 			raw, _ := hex.DecodeString(strings.ReplaceAll(body, "-", ""))
@@ -181,7 +208,9 @@ func c33Check(c *Case, line, backend, prefix, ext string, keys []string, seen ma
 	if bad > 0 {
 		c.Oracle("key-not-prefix-plus-uuid", fmt.Sprintf("%q: %d of %d object keys are not <prefix><uuid><ext>", line, bad, len(keys)))
 	}
-	if dups > 0 {
+	if dups > 0 && fault {
+		c.Oracle("key-reused-under-entropy-failure", fmt.Sprintf("%q: %d of the %d objects written while the entropy source was failing went to a key already used (e.g. %s)", line, dups, len(keys), firstDup))
+	} else if dups > 0 {
 		c.Oracle(backend+"-object-key-reused", fmt.Sprintf("%q: %d of %d uploads wrote to an object key that an earlier upload had used (e.g. %s)", line, dups, len(keys), firstDup))
 	}
 }
@@ -266,19 +295,38 @@ func c33Exec(c *Case) {
 			if kv["enc"] == "zstd" {
 				enc, ext = "zstd", ".arrow.zst"
 			}
+			fault := kv["fault"] == "entropy"
+			if fault {
+				uuid.SetRand(c33FailingReader{})
+			}
 			c33Parallel(n, workers, func() {
+				defer func() { recover() }() // uuid.New panics when the entropy read fails: the upload fails
 				// the signed-URL step needs real credentials and fails here; the object has been written by then
 				st.Upload([]byte("payload"), nil, enc)
 			})
+			if fault {
+				uuid.SetRand(nil)
+			}
 			keys := c33GCSFake.take()
-			if len(keys) != n/max(workers, 1)*max(workers, 1) {
+			total := n / max(workers, 1) * max(workers, 1)
+			if !fault && len(keys) != total {
 				c.Oracle("uploads-did-not-reach-the-fake-endpoint", fmt.Sprintf("%q: %d keys observed", l, len(keys)))
 			}
 			eff := prefix
 			if eff == "" {
 				eff = "vgi-rpc/"
 			}
-			c33Check(c, l, "gcs", eff, ext, keys, seen)
+			if fault {
+				c.Stat("gcs-fault-lines")
+				if len(keys) == 0 {
+					z := "0"
+					if ext == ".arrow.zst" {
+						z = "1"
+					}
+					c.Out(fmt.Sprintf("gcs prefix=%s uuid=! zstd=%s", XS(eff), z), "refused")
+				}
+			}
+			c33CheckF(c, l, "gcs", eff, ext, keys, seen, fault)
 		default:
 			c.Out(l, "err:bad-op")
 		}
@@ -318,6 +366,9 @@ func c33Gen(g *Gen) {
 	for i := 0; i < g.N(4, 40); i++ {
 		p := Pick(r, prefixes)
 		var ls []string
+		if r.Chance(50) { // uploads while the entropy source fails, between healthy ones
+			ls = append(ls, fmt.Sprintf("gcs n=%d workers=%d prefix=%s enc=%s fault=entropy", r.Range(2, 8), Pick(r, []int{1, 1, 2}), hex.EncodeToString([]byte(p)), Pick(r, []string{"none", "zstd"})))
+		}
 		for k := 0; k < r.Range(1, g.N(1, 3)); k++ {
 			ls = append(ls, fmt.Sprintf("gcs n=%d workers=%d prefix=%s enc=%s", r.Range(16, g.N(40, 150)), Pick(r, []int{1, 1, 4, 8}), hex.EncodeToString([]byte(p)), Pick(r, []string{"none", "zstd"})))
 		}
